@@ -210,7 +210,7 @@ static int peer_parse(int c) {
 
 static void drain_all(void) {
   int c;
-  for (c = 0; c < ncl; c++) if (peers[c] >= 0) { vs_drain(peers[c], &bufs[c]); peer_parse(c); }
+  for (c = 0; c < ncl; c++) if (peers[c] >= 0 && cls[c]) { vs_drain(peers[c], &bufs[c]); peer_parse(c); }
 }
 
 static void observe(const char *op) {
@@ -221,7 +221,8 @@ static void observe(const char *op) {
   for (c = 0; c < ncl; c++) {
     rfbClientPtr cl = cls[c];
     printf(" | c%d", c);
-    if (cl->sock < 0) { printf(" CLOSED"); continue; }
+    if (!cl) { printf(" GONE"); continue; }          /* reaped by rfbClientConnectionGone */
+    if (cl->sock < 0) { printf(" CLOSED"); continue; } /* rfbCloseClient: still in the client list */
     print_region("M", cl->modifiedRegion);
     print_region("C", cl->copyRegion);
     printf(" d=%d,%d", cl->copyDX, cl->copyDY);
@@ -349,8 +350,9 @@ static void app_copy_simul(sraRegionPtr r, int dx, int dy) {
 }
 
 /* scaled clients: only the size bookkeeping is modelled (see scaled_guard in UpdateDefs.v) */
+static int live(int c) { return c >= 0 && c < ncl && cls[c] && cls[c]->sock >= 0; }
 static int noguard = 0;   /* implementation-only cases (class f12): scaled clients are driven beyond the model's scope */
-static int is_scaled(int c) { return !noguard && cls[c]->scaledScreen != cls[c]->screen; }
+static int is_scaled(int c) { return !noguard && cls[c] && cls[c]->scaledScreen != cls[c]->screen; }
 static int scaled_guard(int c) { return is_scaled(c) && !(cls[c]->useNewFBSize && cls[c]->newFBSizePending); }
 
 static void client_msg(int c, const unsigned char *m, size_t n) {
@@ -404,12 +406,12 @@ int main(void) {
       rfbDoCopyRect(scr, a[0], a[1], a[2], a[3], a[4], a[5]);
     } else if (!strcmp(op, "req")) {
       unsigned char m[10];
-      if (a[0] < 0 || a[0] >= ncl || is_scaled(a[0])) { printf("o req | ERROR\n"); dead = 1; continue; }
+      if (!live(a[0]) || is_scaled(a[0])) { printf("o req | ERROR\n"); dead = 1; continue; }
       m[0] = 3; m[1] = a[1]; vs_put16(m + 2, a[2]); vs_put16(m + 4, a[3]); vs_put16(m + 6, a[4]); vs_put16(m + 8, a[5]);
       client_msg(a[0], m, 10);
     } else if (!strcmp(op, "setenc")) {
       int32_t e[8]; int k = 0; unsigned char m[4 + 4 * 8]; int i;
-      if (a[0] < 0 || a[0] >= ncl) { printf("o setenc | ERROR\n"); dead = 1; continue; }
+      if (!live(a[0])) { printf("o setenc | ERROR\n"); dead = 1; continue; }
       if (a[1]) e[k++] = rfbEncodingCopyRect;
       e[k++] = rfbEncodingRaw;
       if (a[2]) e[k++] = rfbEncodingRichCursor;
@@ -435,10 +437,10 @@ int main(void) {
     } else if (!strcmp(op, "knobs")) {
       scr->maxRectsPerUpdate = a[0]; scr->progressiveSliceHeight = a[1];
     } else if (!strcmp(op, "tick")) {
-      if (a[0] < 0 || a[0] >= ncl || scaled_guard(a[0])) { printf("o tick | ERROR\n"); dead = 1; continue; }
+      if (!live(a[0]) || scaled_guard(a[0])) { printf("o tick | ERROR\n"); dead = 1; continue; }
       rfbUpdateClient(cls[a[0]]);
     } else if (!strcmp(op, "send")) {
-      if (a[0] < 0 || a[0] >= ncl || scaled_guard(a[0])) { printf("o send | ERROR\n"); dead = 1; continue; }
+      if (!live(a[0]) || scaled_guard(a[0])) { printf("o send | ERROR\n"); dead = 1; continue; }
       rfbSendFramebufferUpdate(cls[a[0]], cls[a[0]]->modifiedRegion);
     } else if (!strcmp(op, "newfb")) {
       /* newfb w h bpp seed : fresh buffer with known content, old one freed at once */
@@ -448,7 +450,7 @@ int main(void) {
       rfbNewFramebuffer(scr, nb, w, h, bpp == 1 ? 2 : (bpp == 2 ? 5 : 8), 3, bpp);
       W = w; H = h; BPP = bpp;
       if (free_old) free(old);
-      { int c; for (c = 0; c < ncl; c++) if (!cls[c]->useNewFBSize) peer_resize(c, W, H); }
+      { int c; for (c = 0; c < ncl; c++) if (cls[c] && !cls[c]->useNewFBSize) peer_resize(c, W, H); }
     } else if (!strcmp(op, "newfbu") || !strcmp(op, "fill")) {
       /* implementation-only ops (scaled clients, F12): uniform content.  newfbu w h bpp v | fill v */
       if (!strcmp(op, "fill")) {
@@ -462,6 +464,15 @@ int main(void) {
         W = w; H = h; BPP = bpp;
         if (free_old) free(old);
       }
+    } else if (!strcmp(op, "close")) {
+      /* the application (or a failed write, or a non-shared newcomer) closes the client: sock = -1, the
+       * record stays in the client list until rfbProcessEvents reaps it */
+      if (!live(a[0])) { printf("o close | ERROR\n"); dead = 1; continue; }
+      rfbCloseClient(cls[a[0]]);
+    } else if (!strcmp(op, "reap")) {
+      /* what rfbProcessEvents does with closed clients */
+      int c;
+      for (c = 0; c < ncl; c++) if (cls[c] && cls[c]->sock < 0) { rfbClientConnectionGone(cls[c]); cls[c] = NULL; }
     } else if (!strcmp(op, "time")) {
       vnow_s = a[0]; vnow_us = a[1];
     } else if (!strcmp(op, "defer")) {
@@ -470,7 +481,7 @@ int main(void) {
       /* SetPixelFormat to the server-style format of that depth + non-incremental full request */
       int c = a[0], b = a[1]; unsigned char m[10];
       int rmax, gmax, bmax, rs, gs, bs, depth;
-      if (c < 0 || c >= ncl || is_scaled(c) || !(b == 1 || b == 2 || b == 4)) { printf("o setpf | ERROR\n"); dead = 1; continue; }
+      if (!live(c) || is_scaled(c) || !(b == 1 || b == 2 || b == 4)) { printf("o setpf | ERROR\n"); dead = 1; continue; }
       if (b == 1) { rmax = 7; gmax = 7; bmax = 3; rs = 0; gs = 3; bs = 6; depth = 8; }
       else if (b == 2) { rmax = gmax = bmax = 31; rs = 0; gs = 5; bs = 10; depth = 16; }
       else { rmax = gmax = bmax = 255; rs = 0; gs = 8; bs = 16; depth = 32; }
@@ -482,13 +493,13 @@ int main(void) {
       client_msg(c, m, 10);
     } else if (!strcmp(op, "setscale")) {
       unsigned char m[4];
-      if (a[0] < 0 || a[0] >= ncl || a[1] <= 0) { printf("o setscale | ERROR\n"); dead = 1; continue; }
+      if (!live(a[0]) || a[1] <= 0) { printf("o setscale | ERROR\n"); dead = 1; continue; }
       m[0] = rfbSetScale; m[1] = a[1]; m[2] = m[3] = 0;
       client_msg(a[0], m, 4);
     } else if (!strcmp(op, "setdesktopsize")) {
       /* setdesktopsize c w h nscreens hookresult */
       unsigned char m[8 + 16 * 256]; int i, ns = a[3] & 255;
-      if (a[0] < 0 || a[0] >= ncl) { printf("o setdesktopsize | ERROR\n"); dead = 1; continue; }
+      if (!live(a[0])) { printf("o setdesktopsize | ERROR\n"); dead = 1; continue; }
       hook_result = a[4];
       memset(m, 0, sizeof m);
       m[0] = rfbSetDesktopSize; vs_put16(m + 2, a[1]); vs_put16(m + 4, a[2]); m[6] = ns;
